@@ -5,7 +5,7 @@
 // tier: 4) over 10 entry kinds {valid record, valid deletion marker, valid just below the future bound, content tampered after signing, signatures
 // of another entry, author signature by another author, validly signed for another namespace, 11 minutes in the future, empty hash with non-zero
 // length, non-empty hash with zero length}, as one range-item part and split into two parts at every position; the replica must store, count as
-// head, and announce exactly the valid ones, in both parts, at every position. The same entries through the single remote insert get the same verdict,
+// head, and announce exactly the valid ones, in both parts, at every position; an invalid twin of a valid entry (same key, timestamp and hash) before or after it is never stored. The same entries through the single remote insert get the same verdict,
 // and through the store actor (SyncHandle::insert_remote, the gossip path) only the valid ones are counted in the inserted-entries metrics.
 #[cfg(test)]
 mod verif_rp_c03_recon {
@@ -105,6 +105,44 @@ mod verif_rp_c03_recon {
             layer = next;
         }
         println!("c03_recon: {n} messages checked");
+    }
+
+    /// An invalid copy of a valid entry - same key, timestamp and content hash (so the same fingerprint), but an altered length or the
+    /// signatures of another entry - in the same message, before or after the valid one, in the same part or in an earlier part:
+    /// the valid entry, and only it, is stored and announced (with its own length and signatures).
+    #[tokio::test]
+    async fn invalid_twin_of_a_valid_entry_is_never_stored() {
+        let mut rng = rand::rng();
+        let ctx = Ctx { ns: NamespaceSecret::new(&mut rng), ns2: NamespaceSecret::new(&mut rng), author: Author::new(&mut rng), other: Author::new(&mut rng), now: system_time_now() };
+        let key = b"twin".to_vec();
+        let h = Hash::new(&key);
+        let good = SignedEntry::from_parts(&ctx.ns, &ctx.author, &key, Record { hash: h, len: 3, timestamp: ctx.now });
+        let altered_len = SignedEntry::new(good.signature().clone(), Entry::new(good.id().clone(), Record { hash: h, len: 4, timestamp: ctx.now }));
+        let donor = SignedEntry::from_parts(&ctx.ns, &ctx.author, b"donor", Record { hash: h, len: 3, timestamp: ctx.now });
+        let stolen_sig = SignedEntry::new(donor.signature().clone(), Entry::new(good.id().clone(), Record { hash: h, len: 3, timestamp: ctx.now }));
+        for (name, twin) in [("altered length", altered_len), ("signatures of another entry", stolen_sig)] {
+            for (layout, parts) in [
+                ("twin first, same part", vec![vec![twin.clone(), good.clone()]]),
+                ("twin last, same part", vec![vec![good.clone(), twin.clone()]]),
+                ("twin in an earlier part", vec![vec![twin.clone()], vec![good.clone()]]),
+                ("twin in a later part", vec![vec![good.clone()], vec![twin.clone()]]),
+            ] {
+                let mut store = Store::memory();
+                let mut replica = store.new_replica(ctx.ns.clone()).unwrap();
+                let (tx, rx) = async_channel::bounded(8);
+                replica.info.subscribe(tx);
+                let mut outcome = SyncOutcome::default();
+                let res = replica.sync_process_message(message(parts), [7u8; 32], &mut outcome).await;
+                assert!(res.is_ok(), "WITNESS message with an invalid twin ({name}; {layout}) fails as a whole: {res:?}");
+                drop(replica);
+                store.close_replica(ctx.ns.id());
+                let stored: Vec<SignedEntry> = store.get_many(ctx.ns.id(), Query::all().include_empty()).unwrap().map(|e| e.unwrap()).collect();
+                assert_eq!(stored, vec![good.clone()], "WITNESS message with an invalid twin ({name}; {layout}) of a valid entry: the store holds {stored:?} instead of exactly the valid entry");
+                let mut announced = vec![];
+                while let Ok(ev) = rx.try_recv() { if let Event::RemoteInsert { entry, .. } = ev { announced.push(entry); } }
+                assert_eq!(announced, vec![good.clone()], "WITNESS message with an invalid twin ({name}; {layout}): announced {announced:?} instead of exactly the valid entry");
+            }
+        }
     }
 
     #[tokio::test]
